@@ -170,8 +170,8 @@ def add_query_argument(url, name, value=None, quote=True):
 
 
 def unsplit_netloc(username, password, hostname, port):
-    if username and password:
-        auth = username + ":" + password
+    if password:
+        auth = (username or "") + ":" + password
     elif username:
         auth = username
     else:
